@@ -144,7 +144,7 @@ class BundleFlattener(ElabPass):
         # Remove and replace each `BundleInstance` from the Module
         while module.bundles:
             name, bundle_inst = module.bundles.popitem()
-            module.namespace.pop(name)
+            self.dissolve(module, name)
             self.replace_bundle_inst(module, bundle_inst)
 
         # Go through each Instance, replacing `AnonymousBundle`s with their referents
@@ -181,7 +181,7 @@ class BundleFlattener(ElabPass):
             # Rename the signal, prepending the bundle-instance's name
             sig.name = self.flatname(
                 segments=[bundle_inst.name, pathstr.to_name()],
-                avoid=module.namespace,
+                avoid=self.taken(module),
             )
             # And add it to the Module namespace
             module.add(sig)
